@@ -70,6 +70,18 @@ def mutants(hist: Dict[str, Any], rng: Any) -> List[Dict[str, Any]]:
             r["sent"] = dstr(Decimal(r["sent"]) + extra)
             r["recv"] = dstr(Decimal(r["recv"]) + extra)
         result.append(h)
+    # 1b. the same inflation on an out-row that also carries an exchange-supplied crypto_out_with_fee cell, left at its old
+    #     (now too small) value: what leaves the account is amount + fee, whatever that optional cell says
+    outs = [x for x in hist["rows"] if x["t"] == "OUT" and x["type"] != "FEE"]
+    if outs:
+        h = copy.deepcopy(hist)
+        r = rng.choice([x for x in h["rows"] if x["t"] == "OUT" and x["type"] != "FEE"])
+        account = (r["ex"], r["ho"])
+        final = balances[account]["final"]
+        delta = rng.choice(INFLATE[2:])
+        r["cout_wf"] = dstr(Decimal(r["cout"]) + Decimal(r["cfee"]))
+        r["cout"] = dstr(Decimal(r["cout"]) + Decimal(final.numerator) / Decimal(final.denominator) + delta)
+        result.append(h)
     # 2. a debit moved one instant before the first funding of its account (transient overdraft, refilled later)
     h = copy.deepcopy(hist)
     r = rng.choice([x for x in h["rows"] if x["t"] in ("OUT", "INTRA")])
